@@ -164,3 +164,71 @@ def run_program(r, prog, execs=1, interleave_tests=True):
         seqs = [[dict(c) for c in calls] + [op_end(t)] for t, _, calls in prog]
         ops += interleave(r, seqs) if interleave_tests else [o for s in seqs for o in s]
     return ops
+
+
+# ---------------------------------------------------------------- JSON docs with matchers
+DOC_WITH_PATHS = [
+    (b'{"user":{"name":"n","age":3},"tags":["x","y"],"time":"2020-01-01T00:00:00Z","ok":true}',
+     ["user.name", "user.age", "tags.0", "tags.1", "time", "ok", "user"], ["missing", "user.nope", "tags.7"]),
+    (b'[{"a":1},{"a":2,"b":null}]', ["0.a", "1.a", "1.b", "0"], ["2", "0.z"]),
+    (b'{"k.dot":{"x":[1,2,3]},"e\\"q":"v"}', ["k\\.dot.x.1", "k\\.dot"], ["k.dot", "nope"]),
+]
+TYPES_OF = {"user.name": "string", "user.age": "float64", "tags.0": "string", "tags.1": "string", "time": "string",
+            "ok": "bool", "user": "map", "0.a": "float64", "1.a": "float64", "0": "map", "k\\.dot.x.1": "float64",
+            "k\\.dot": "map", "1.b": None}
+
+
+def gen_matchers(r, good, bad, fail):
+    """fail: None (all satisfiable) | 'missing' | 'type' | 'custom' | 'mixed'"""
+    ms = []
+    n = r.range(1, 3)
+    for _ in range(n):
+        k = r.choice(["any", "type", "custom"])
+        p = r.choice(good)
+        if k == "any":
+            m = {"kind": "any", "paths": [p] + ([r.choice(good)] if r.chance(1, 3) else [])}
+            if r.chance(1, 3):
+                m["placeholder"] = r.choice(['"<x>"', '"a much longer placeholder value than before"', "42", "null", '"p"'])
+        elif k == "type":
+            t = TYPES_OF.get(p)
+            if t is None:
+                m = {"kind": "any", "paths": [p]}
+            else:
+                m = {"kind": "type", "type": t, "paths": [p]}
+        else:
+            m = {"kind": "custom", "paths": [p], "ret": r.choice(['"<c>"', "7", '{"z":1}'])}
+        ms.append(m)
+    if fail:
+        f = fail if fail != "mixed" else r.choice(["missing", "type", "custom"])
+        if f == "missing":
+            bm = {"kind": r.choice(["any", "type", "custom"]), "paths": [r.choice(bad)], "type": "string"}
+        elif f == "type":
+            cands = [p for p in good if TYPES_OF.get(p)]
+            p = r.choice(cands)
+            wrong = "bool" if TYPES_OF[p] != "bool" else "string"
+            bm = {"kind": "type", "type": wrong, "paths": [p]}
+        else:
+            bm = {"kind": "custom", "paths": [r.choice(good)], "err": True}
+        ms.insert(r.below(len(ms) + 1), bm)
+    elif r.chance(1, 4):
+        ms.append({"kind": r.choice(["any", "custom"]), "paths": [r.choice(bad)], "errOnMissing": False, "type": "string"})
+    return ms
+
+
+def to_yaml_path(p):
+    return "$." + ".".join(("[%s]" % x) if x.isdigit() else x for x in p.replace("\\.", "\x00").split(".")).replace(".[", "[").replace("\x00", ".")
+
+
+def expected_multi_path(cfg, api, test_hex, caller_base="zz_verif_trace_test"):
+    """Independent reading of the naming rule (C11): <dir>/<Filename or test file base>.snap<Ext>"""
+    d = cfg.get("dir", "~")
+    d = "/S/def" if d in ("~", None) else unhx_s(d)
+    fn = cfg.get("fn", "~")
+    fn = caller_base if fn in ("~", "-", None) else unhx_s(fn)
+    ext = cfg.get("ext", "~")
+    ext = "" if ext in ("~", "-", None) else unhx_s(ext)
+    return d + "/" + fn + ".snap" + ext
+
+
+def unhx_s(h):
+    return bytes.fromhex(h).decode("latin-1") if h not in ("-", "~", None) else ""
